@@ -197,4 +197,19 @@ theorem expel_rules_as_extracted :
 
 theorem source_pinned : Gen.C04.pins = Pins.C04 := by decide
 
+/-- 100 % of `x` nodes is all of them -/
+theorem required_full (x : Nat) : required x 1000 = x := by
+  unfold required; omega
+
+/-- **expel_rules_disagree_exactly.**  `k` expels that are not more than `f = n − required n t10`, `m` of the
+remaining `n − k` nodes vote for one fact: the box (full suffrage, configured threshold) calls it a majority
+and the validator (reduced suffrage, 100 %) does not, exactly when `required n t10 ≤ m < n − k`.  (With more
+than `f` expels both count in the reduced suffrage at 100 % and agree.) -/
+theorem expel_rules_disagree_exactly (n t10 k m : Nat) :
+    (required n t10 ≤ m ∧ ¬ required (n - k) 1000 ≤ m) ↔ (required n t10 ≤ m ∧ m < n - k) := by
+  rw [required_full]; omega
+
+/-- the witness of the known finding is an instance -/
+example : required 7 670 ≤ 5 ∧ 5 < 7 - 1 ∧ 1 ≤ 7 - required 7 670 := by decide
+
 end Mitum.C04
